@@ -75,6 +75,16 @@ def devsOK (file : List Message) : Bool :=
     | some d => (lookupFieldNum m.num d.name).isNone && valueOK d.bt false dv.value && !(d.units == degreesTxt && d.bt == btSint32)
     | none => false
 
+/-- the property's own condition: no field written in the file (not flagged as expanded) is the expansion target of a
+component of another field present in the same message — components of the field itself or of any of its sub-fields,
+which is what the reader's `removeExpandedComponents` looks at -/
+def targetsClear (m : Message) : Bool :=
+  let targets := m.fields.flatMap fun f =>
+    match pfield m.num (fieldNumOf f) with
+    | some p => p.comps ++ p.subs.flatMap (·.comps)
+    | none => []
+  m.fields.all fun f => f.isExpanded || !targets.contains (fieldNumOf f)
+
 /-- `CsvUnambiguous`: every file starts with its only file_id; field values as the decoder produces them, strings within
 the safe alphabet, arrays non-empty; developer fields as `devsOK`; no position in degrees (arithmetic) -/
 def csvUnambiguousB (o : Opts) (files : List (List Message)) : Bool :=
@@ -83,7 +93,7 @@ def csvUnambiguousB (o : Opts) (files : List (List Message)) : Bool :=
     (match file with
      | m :: rest => m.num == mnFileId && rest.all (·.num != mnFileId)
      | [] => false) &&
-    file.all (fun m => m.fields.all (fieldOK m)) && devsOK file
+    file.all (fun m => m.fields.all (fieldOK m) && targetsClear m) && devsOK file
 
 /-- what a message is expected to come back as (as written, before the decoder expands components again): without its
 expanded component fields and — unless verbose — without unknown fields; nothing for an unknown message unless verbose,
